@@ -68,6 +68,10 @@ def gen_case(rng):
             # fault: the k-th deletion hits "[Errno 116] Stale file handle" (the entry was being removed by another cleaner:
             # it is gone, but rmtree raises) -- the case enforce_store_limits documents and tolerates
             rnd["stale_at"] = rng.randint(0, 3)
+        if "stale_at" not in rnd and "vanish_at" not in rnd and rng.random() < 0.12:
+            # fault: the eviction is interrupted (Ctrl-C, kill) before its k-th deletion: what is gone by then must still be
+            # the least recently used entries
+            rnd["interrupt_at"] = rng.randint(1, 4)
         rounds.append(rnd)
     return {"rounds": rounds, "compress": rng.random() < 0.1}
 
@@ -195,8 +199,23 @@ def run_case(case):
                         fired[0] += 1
                         raise OSError(116, "Stale file handle", path)
                 sb.shutil = _types.SimpleNamespace(rmtree=rmtree)
+            interrupted = False
+            if "interrupt_at" in rnd:
+                count_i = [0]
+
+                def rmtree_i(path, ignore_errors=False, onerror=None, **kw):
+                    k = count_i[0]; count_i[0] += 1
+                    if k == rnd["interrupt_at"]:
+                        raise KeyboardInterrupt()
+                    return _sh.rmtree(path, ignore_errors=ignore_errors, **kw)
+                sb.shutil = _types.SimpleNamespace(rmtree=rmtree_i)
             try:
                 mem.reduce_size(bytes_limit=bl, items_limit=il, age_limit=None if al is None else _dt.timedelta(seconds=al))
+            except KeyboardInterrupt:
+                if "interrupt_at" not in rnd:
+                    raise
+                interrupted = True
+                stats["interrupted"] = stats.get("interrupted", 0) + 1
             except BaseException as ex:  # noqa
                 verdict = {"class": "reduce_size_raised", "detail": "%s(%s) with limits %s" % (type(ex).__name__, ex, (bl, il, al)),
                            "sig": {"what": "reduce_size_raised", "exc": type(ex).__name__}}
@@ -219,7 +238,7 @@ def run_case(case):
                 # not judged in a round that has some
                 left = [d_ for d_ in (e["path"] for e in entries.values()) if os.path.isdir(d_)]
                 disk_bytes = sum(os.path.getsize(os.path.join(d_, f)) for d_ in left for f in os.listdir(d_))
-                if (il is not None and len(left) > il) or (blb is not None and disk_bytes > blb):
+                if not interrupted and ((il is not None and len(left) > il) or (blb is not None and disk_bytes > blb)):
                     verdict = {"class": "limits_not_met", "detail": "after reduce_size(bytes=%s, items=%s) the store still holds %d entries / %d bytes "
                                "(entries without output.pkl count too)" % (bl, il, len(left), disk_bytes), "sig": {"what": "limits_not_met", "orphan": True}}
                 for i, e in orphans.items():
@@ -250,11 +269,16 @@ def run_case(case):
             desc = dict(limits=(bl, il, al), now=clock.now - 1.7e9,
                         entries=sorted((round(e["at"] - 1.7e9, 3), e["size"], i) for i, e in live.items()),
                         evicted=sorted(ev))
-            if not ok(surv):
+            if interrupted:
+                # only the order is judged: the entries removed so far are the least recently used ones
+                if ev and surv and max(live[i]["at"] for i in ev) > min(live[i]["at"] for i in surv):
+                    verdict = {"class": "not_lru_order", "detail": "eviction interrupted before deletion %d: %s" % (rnd["interrupt_at"], desc),
+                               "sig": {"what": "not_lru_order", "interrupted": True}}
+            elif not ok(surv):
                 verdict = {"class": "limits_not_met", "detail": str(desc), "sig": {"what": "limits_not_met"}}
             elif ev and surv and max(live[i]["at"] for i in ev) > min(live[i]["at"] for i in surv):
                 verdict = {"class": "not_lru_order", "detail": str(desc), "sig": {"what": "not_lru_order"}}
-            elif ev:
+            elif ev and not interrupted:
                 mx = max(live[i]["at"] for i in ev)
                 cands = [i for i in ev if live[i]["at"] == mx]
                 if all(ok(surv | {i}) and not (al is not None and clock.now - live[i]["at"] == al) for i in cands):
@@ -283,7 +307,8 @@ def run_case(case):
         return {"verdict": verdict, "digest": h.hexdigest()[:24], "shape": hs.hexdigest()[:16], "steps": sum(len(r["ops"]) for r in case["rounds"]),
                 "switches": 0, "sim_time": clock.now - 1.7e9, "faults": {k_: v_ for k_, v_ in {"stale_file_handle_in_rmtree": stats.get("stale", 0), "entry_vanishes_during_scan": stats.get("vanished", 0),
                                                    "entry_without_result": stats.get("orphans", 0),
-                                                   "leftover_temporary_file_of_a_killed_writer": stats.get("tmpfiles", 0)}.items() if v_}, "nontrivial": nontrivial,
+                                                   "leftover_temporary_file_of_a_killed_writer": stats.get("tmpfiles", 0),
+                                                   "eviction_interrupted_midway": stats.get("interrupted", 0)}.items() if v_}, "nontrivial": nontrivial,
                 "probes": {"reduce_with_ties_in_access_time": stats["ties"], "exact_fit_limit": stats["exact_fit"], "entries_evicted": stats["evicted"]},
                 "sample": case["rounds"][0]}
     finally:
